@@ -474,7 +474,7 @@ macro_rules! bank_owned {
 }
 
 /// Option<T> -> Value::Maybe -> Option<T> (the way back is `Maybe::get`).
-#[cfg(feature = "gvariant")]
+#[cfg(all(feature = "gvariant", not(feature = "option-as-array")))]
 macro_rules! bank_option {
     ($fails:ident, $evals:ident, $t:ty, $vals:expr) => {{
         let mut vals: Vec<Option<$t>> = vec![None];
@@ -537,7 +537,7 @@ fn bank(fails: &mut Vec<BankFail>, evals: &mut u64) -> usize {
     b!(((u8, u8), String), strings().into_iter().map(|s| ((1u8, 255u8), s)).collect());
     b!((Vec<u8>, HashMap<String, u32>), lists(&u8s()).into_iter().zip(maps(&strings(), &[1u32, 2]).into_iter().cycle()).collect());
     b!((String, Vec<(u8, String)>), vec![("k".to_string(), vec![]), ("".to_string(), vec![(1u8, "a".to_string()), (2u8, "é/€".to_string())])]);
-    #[cfg(feature = "gvariant")]
+    #[cfg(all(feature = "gvariant", not(feature = "option-as-array")))]
     {
         macro_rules! o { ($t:ty, $v:expr) => {{ n_types += 1; bank_option!(fails, evals, $t, $v); }} }
         o!(u8, u8s());
@@ -616,7 +616,7 @@ pub fn main(args: &Args) -> i32 {
     report.assume("when `==` is not reflexive for a value, copies are compared through the harness tree (floats bitwise, fds by inode) instead of `==`");
     report.assume("only Ord::cmp is treated as 'the ordering'; partial_cmp/< on NaN is not part of the stated laws");
     report.finish(
-        "all values of rv::all_types(2) + every basic-key dict over {y,d,s,v} + two-field structs over {y,d,s,g} + nested float containers (+ a fixed-stride subset of 3-node types in thorough); every ordered pair for ==/cmp/hash laws, every triple (over all values if N <= 800, else over the 700 values richest in floats/signatures) for transitivity; non-trivial = distinct values plus distinct bank conversions",
+        "all values of rv::all_types(2) + every basic-key dict over {y,d,s,v} + two-field structs over {y,d,s,g} + nested float containers (+ a fixed-stride subset of 3-node types in thorough); every ordered pair for ==/cmp/hash laws, every triple (over all values if N <= 1000, else over the 1000 values richest in floats/signatures/fds) for transitivity; non-trivial = distinct values plus distinct bank conversions",
         true,
     )
 }
@@ -746,7 +746,7 @@ fn run(tier: Tier, report: &Report, only: Option<&[String]>) -> bool {
     }
 
     // ---- transitivity over the matrices
-    let tri: Vec<usize> = if n <= 800 {
+    let tri: Vec<usize> = if n <= 1000 {
         (0..n).collect()
     } else {
         let mut pri: Vec<usize> = (0..n).collect();
@@ -754,9 +754,9 @@ fn run(tier: Tier, report: &Report, only: Option<&[String]>) -> bool {
             let r = &items[*i].rv;
             (!(has_nan(r)), !(has_float(r) || has_sigval(r) || has_fd(r)), *i % 7, *i)
         });
-        pri.truncate(700);
+        pri.truncate(1000);
         pri.sort();
-        report.cap(format!("transitivity is checked on 700 of the {n} values (all values with floats, signature values or fds first, the rest by fixed stride); pair laws cover all values"));
+        report.cap(format!("transitivity is checked on 1000 of the {n} values (all values with floats, signature values or fds first, the rest by fixed stride); pair laws cover all values"));
         pri
     };
     let tn = tri.len();
